@@ -75,6 +75,10 @@ class _Excluded:
 EXCLUDED = _Excluded()
 
 
+class WitnessExhausted(BaseException):
+    """replay asked for an input the symbolic path never created (it stopped earlier at a counted exclusion)"""
+
+
 class PathEnd(BaseException):
     """a check failed for every value of the path: nothing after it can be analysed, the path ends here"""
 
@@ -111,6 +115,8 @@ class Ctx:
     def str(self, name, n, lo=0, hi=CP_MAX, no_surrogates=False, alphabet=None):
         """n free code points (all of Unicode incl. surrogates unless restricted)"""
         if not self.sym:
+            if name not in self.witness:
+                raise WitnessExhausted(name)
             v = self.witness[name]
             if not isinstance(v, str) or len(v) != n:
                 raise HarnessError("witness %r does not fit input %r" % (v, name))
@@ -130,6 +136,8 @@ class Ctx:
 
     def int(self, name, lo, hi):
         if not self.sym:
+            if name not in self.witness:
+                raise WitnessExhausted(name)
             return self._reg(name, int(self.witness[name]))
         v = z3.BitVec(name, W)
         E.solver.add(v >= lo, v <= hi)
@@ -139,6 +147,8 @@ class Ctx:
 
     def bool(self, name):
         if not self.sym:
+            if name not in self.witness:
+                raise WitnessExhausted(name)
             return self._reg(name, bool(self.witness[name]))
         return self._reg(name, SBool(z3.Bool(name)))
 
@@ -296,7 +306,11 @@ class Runner:
             if not self.no_concordance:
                 try:
                     rctx = Ctx("replay", real_pkg, witness=wit, prop=self.prop)
-                    fam.fn(rctx, **fam.params)
+                    try:
+                        fam.fn(rctx, **fam.params)
+                    except WitnessExhausted:
+                        if not any(_has_excluded(v) for l, v in sobs):
+                            raise HarnessError("replay needs an input the symbolic path never created")
                     robs = rctx.obs
                     cut = [i for i, (l, v) in enumerate(sobs) if _has_excluded(v)]
                     if cut:
